@@ -67,7 +67,8 @@ add("hdr_flat_trunc", ["C03", "C04", "C05", "C12", "C13", "C17"], "hdr.rs", "U",
 # ---------------------------------------------------------------- ensure_data_read unit
 EDR_B = "24-byte symbolic stream, 3 scripted reads of 0..=8 bytes each (0 = temporary EOF) then EOF, request length as in the name (the call sites use 1, 8, 16 and payload sizes), 16 symbolic stale bytes, fill<=8, cursor<=fill, base<2^40"
 for n, cap, ff in (("edr_refill_cap16_len16", 16, False), ("edr_first_fill_cap16_len8", 16, True), ("edr_refill_cap8_len16", 8, False),
-                   ("edr_first_fill_cap0_len1", 0, True), ("edr_refill_cap16_len5", 16, False)):
+                   ("edr_first_fill_cap0_len1", 0, True), ("edr_refill_cap16_len5", 16, False),
+                   ("edr_refill_cap16_len16_at_6_8", 16, False), ("edr_refill_cap8_len16_at_4_8", 8, False)):
     add(n, ["C04", "C05", "C17"], "edr.rs", "U",
         "ensure_data_read: allocation <= max(old, requested); position fixed, buffered window == stream at every absolute position, only extended, no byte lost/duplicated, "
         "Ok(true) => bytes present, Ok(false) only after the source returned 0" + (" (first fill)" if ff else ""),
@@ -203,8 +204,8 @@ for n, ch in (("hdr_tree_known_root", "[Root]"), ("hdr_tree_known_root_a", "[Roo
     add(n, ["C11", "C06", "C13", "C17"], "hdr_tree.rs", "U",
         "peek_valid_tag_header with KNOWN-size open masters %s: accepted iff (id in spec | tolerated) and declared path matches the chain (| tolerated) and extent inside every ancestor (| tolerated) and size <= limit; each rejection carries its own kind, id and offset" % ch,
         "every 1-byte id x every 1-2 byte size field; symbolic extents of the known-size masters; all 8 tolerance masks; limit any Option<usize>; base offset < 2^40",
-        tier="quick" if n in ("hdr_tree_known_root_a", "hdr_tree_known_root_a_b") else "thorough",
-        timeout_s=2400, mem_gb=16, stubs=IO_HASH, big_stack=True, assumes=TREE_A + ["all open masters known-size (unknown-size closing: hdr_tree_chain_*, thorough)"])
+        tier="quick" if n in ("hdr_tree_known_root",) else "thorough",
+        timeout_s=5400, mem_gb=30, stubs=IO_HASH, big_stack=True, assumes=TREE_A + ["all open masters known-size (unknown-size closing: hdr_tree_chain_*, thorough)"])
 for n, e in (("hdr_tree_first_l3", "L3 (Root/A/B/L3)"), ("hdr_tree_first_l2", "L2 (Root/A/L2)"), ("hdr_tree_first_b", "master B (Root/A/B)"), ("hdr_tree_first_a2", "master A2 (Root/A2)"),
              ("hdr_tree_first_root", "Root"), ("hdr_tree_first_void", "global Void")):
     add(n, ["C06", "C03"], "hdr_tree.rs", "U", "first element of a stream is %s (position not yet fixed): a non-global element fixes it and its declared ancestors become open masters stored as End, offset 0, unknown size; a global does not" % e,
@@ -214,3 +215,12 @@ for n, e in (("hdr_tree_first_l3", "L3 (Root/A/B/L3)"), ("hdr_tree_first_l2", "L
 # documents with masters (docm.rs: Root{U} on Mini, 4-6 next() calls) were attempted again in the build round with
 # unwind 10 and concrete structure: docm_known and docm_unknown_eof both hit the 3600 s timeout still in symex
 # (DESIGN section 2 row 38 confirmed). They are not registered: a check that can only be inconclusive helps nobody.
+
+# ---------------------------------------------------------------- read_next steps that need no tag to be parsed
+RN_A = ["seeded state: open masters over Tree with consistent offsets (Inv_stack), everything buffered consumed, source at EOF", "empty emission queue"]
+# rn_eof_closes_{1,2,3} / rn_size_closes_{2,3} (rn.rs: End emission at end of input / when a known range is exhausted) are NOT
+# registered: measured in the build round, pushing even two items into the emission queue (a VecDeque of ~100-byte Result
+# items) drives CaDiCaL past 60 GB (65 GB max RSS without limits; solver error under the 32 GB cap), with or without a
+# pre-reserved queue. Only the variant that emits nothing is tractable:
+add("rn_eof_noclose_2", ["C04", "C06"], "rn.rs", "U", "read_next at (temporary) end of input with EOF closing disabled: nothing emitted, masters stay open", "2 masters, symbolic sizes/offsets",
+    timeout_s=1200, mem_gb=10, stubs=IO_HASH, big_stack=True, assumes=RN_A)
